@@ -286,8 +286,10 @@ int accept(ACCEPTPARAMS) {
   }
 
   int sock = fibershim_accept(sockfd, addr, addrlen);
-  if (sock < 0 && (errno == EWOULDBLOCK || errno == EAGAIN) &&
-      should_block(sockfd)) {
+  // several fibers may wait on the same listening socket; all of them are woken
+  // by one connection and only one can take it, so keep waiting
+  while (sock < 0 && (errno == EWOULDBLOCK || errno == EAGAIN) &&
+         should_block(sockfd)) {
     if (!fiber_wait_for_event(sockfd, FIBER_POLL_IN)) {
       return -1;
     }
